@@ -72,6 +72,7 @@ def tokenize(text: str):
 #   ('neg', x) ('pos', x) ('pct', x) ('bin', op, l, r) ('call', name, [args]) ('paren', x)
 
 CMP = ('=', '<>', '<', '<=', '>', '>=')
+TRAILING_SEP_OK = {'ROUNDUP': 1, 'ROUNDDOWN': 1}
 
 
 class _P:
@@ -160,6 +161,9 @@ class _P:
                     break
                 if not (k2 == 'op' and v2 in (',', ';')):
                     raise Invalid(f'expected separator got {v2!r}')
+                if TRAILING_SEP_OK.get(v) == len(args) and self.peek() == ('op', ')'):
+                    self.take()   # FUNC(x,) - the omitted last argument of ROUNDUP / ROUNDDOWN
+                    break
             return ('call', v, args)
         if k == 'op' and v == '(':
             x = self.expr()
